@@ -101,6 +101,42 @@ def broken_docs():
     return docs
 
 
+def path_defaults_doc():
+    """path parameters are positional: every arrangement of schema defaults over two / three path parameters (a default BEFORE a
+    parameter without one was a SyntaxError before repair b9d7aba: fixed finding path_default_before_required), with and without keyword parameters behind them"""
+    paths = {}
+    S, D = {"type": "string"}, {"type": "string", "default": "dflt"}
+    for i, flags in enumerate([(0, 0), (0, 1), (1, 1), (1, 0), (0, 1, 1), (0, 1, 0), (1, 0, 1)]):
+        seg = "".join("/{p%d}" % j for j in range(len(flags)))
+        ps = [OPS.P("p%d" % j, "path", D if f else S) for j, f in enumerate(flags)]
+        paths[f"/pd{i}{seg}"] = {"get": OPS.op(f"pd{i}_bare", list(ps)), "post": OPS.op(f"pd{i}_kw", ps + [OPS.P("q", "query", S, False), OPS.P("r", "query", S, True)])}
+    return OPS.doc(paths)
+
+
+SIG_HDR = "Require Import OPC.Uni OPC.Signature.\nFrom Coq Require Import NArith List Bool. Import ListNotations. Open Scope N_scope.\n"
+
+
+def csp(l):
+    return "[" + "; ".join("{| sp_name := %s; sp_default := %s |}" % (cstr(n), "true" if d else "false") for n, d in l) + "]"
+
+
+def signature_terms(r):
+    """[(term, info)] for one tree"""
+    out = []
+    for sg in r.get("sigs", []):
+        sp = sg["spec"]
+        e = "{| e_path := %s; e_body := %s; e_rest := %s |}" % (csp(sp["path"]), "true" if sp["body"] else "false", csp(sp["rest"]))
+        if sg["compiles"]:
+            for fn, d in sg["defs"].items():
+                b = "false" if fn == "_get_kwargs" else "true"
+                obs = "{| positional := %s; star := %s; kwonly := %s |}" % (csp(d["pos"]), "true" if d["kwonly"] else "false", csp(d["kwonly"]))
+                out.append((f"sig_eqb (sig_of {e} {b}) {obs} && negb {'true' if d['vararg'] else 'false'}", {"label": r["label"], "op": sg["op"], "def": fn, "observed": d, "spec": sp}))
+            out.append((f"py_valid (sig_of {e} false) && py_valid (sig_of {e} true)", {"label": r["label"], "op": sg["op"], "def": "compiles", "spec": sp}))
+        elif sg.get("syntax_msg", "").startswith(("parameter without a default follows", "duplicate argument", "named arguments must follow bare")):
+            out.append((f"negb (py_valid (sig_of {e} false) && py_valid (sig_of {e} true))", {"label": r["label"], "op": sg["op"], "def": "rejected: " + sg["syntax_msg"], "spec": sp}))
+    return out
+
+
 def names_in(doc):
     out = []
     def walk(x, key=None):
@@ -142,6 +178,34 @@ def work(args):
             data, _cfg = impl.parse_doc(doc, cfg=cfg)
             from lib import epwork
             out["bad_param_names"] = sorted({n for _m, _t, ep in epwork.endpoints_of(data, _cfg) for n in epwork.non_identifier_params(ep)})
+            # signatures: what Signature.sig_of predicts from the parsed endpoint vs the ast of the generated defs
+            import ast as _ast
+            sigs = []
+            hasd = lambda p: (p.default is not None) or (not p.required)
+            for module, tag, ep in epwork.endpoints_of(data, _cfg):
+                rel = (("" if meta == "none" else None), module)
+                fpath = next((f for f in files if f.endswith("/".join(module.split(".")) + ".py")), None)
+                if fpath is None:
+                    continue
+                spec = {"path": [[str(p.python_name), hasd(p)] for p in ep.path_parameters], "body": bool(ep.bodies),
+                        "rest": [[str(p.python_name), hasd(p)] for p in ep.query_parameters + ep.header_parameters + ep.cookie_parameters]}
+                ent = {"file": fpath, "op": ep.name, "spec": spec, "defs": {}}
+                src = files[fpath].decode("utf-8")
+                try:
+                    t = _ast.parse(src)
+                    for n in t.body:
+                        if isinstance(n, (_ast.FunctionDef, _ast.AsyncFunctionDef)) and n.name in ("_get_kwargs", "sync_detailed", "sync", "asyncio_detailed", "asyncio"):
+                            a = n.args
+                            nd = len(a.defaults)
+                            pos = [[x.arg, i >= len(a.args) - nd] for i, x in enumerate(a.posonlyargs + a.args)]
+                            kwo = [[x.arg, d is not None] for x, d in zip(a.kwonlyargs, a.kw_defaults)]
+                            ent["defs"][n.name] = {"pos": pos, "kwonly": kwo, "vararg": a.vararg is not None or a.kwarg is not None}
+                    ent["compiles"] = True
+                except SyntaxError as e:
+                    ent["compiles"] = False
+                    ent["syntax_msg"] = e.msg
+                sigs.append(ent)
+            out["sigs"] = sigs
             mods = {}
             _models, _enums = list(data.models), list(data.enums)      # generators: consume once
             for m in _models + _enums:
@@ -257,6 +321,7 @@ def run(run, tier, replay=None):
         jobs.append((l, d, "none", None, 0))
     for i, cfg in enumerate(G.RESERVED_CFGS):
         jobs.append((f"reserved{i}", G.reserved_doc(), "none", cfg, 0))
+    jobs.append(("path_defaults", path_defaults_doc(), "none", None, 0))
     nh = 24 if tier == "quick" else 300
     for i in range(nh):
         d = hostile_doc(random.Random(rng.randrange(1 << 30)), allow_gap=(i % 6 == 0))
@@ -306,8 +371,16 @@ def run(run, tier, replay=None):
             seen.add(key)
             run.violation("oracle", {"label": r["label"], "doc": r["doc"], "meta": r["meta"], "cfg": r["cfg"], "problem": prob,
                                      "note": "an accepted document produced a package that is not valid / importable / closed"})
+    sterms = [t for r in results if not r["error"] and not r["skipped"] for t in signature_terms(r)]
+    sbad = run_cases(SIG_HDR, [t for t, _ in sterms], shard=400) if sterms else []
+    for i in sbad[:6]:
+        info = sterms[i][1]
+        rr = next(r for r in results if r["label"] == info["label"])
+        run.violation("correspondence", {"label": info["label"], "doc": rr["doc"], "meta": rr["meta"], "cfg": rr["cfg"], "signature": info,
+                                         "note": "the parameter list of a generated endpoint function is not Signature.sig_of (positional path parameters, `*` exactly when something follows, keyword-only rest), or Python's verdict on it differs from py_valid"})
+    run.extra["signatures_compared"] = len(sterms)
     bad = run_cases(HDR, terms, shard=60)
-    run.corr = {"cases": len(terms), "mismatches": len(bad), "what": "set of files written by Project.build == Fs.gen_files applied to the module and tag names the parser produced"}
+    run.corr = {"cases": len(terms) + len(sterms), "mismatches": len(bad) + len(sbad), "what": "set of files written by Project.build == Fs.gen_files applied to the module and tag names the parser produced; parameter list of every generated endpoint def (ast) == Signature.sig_of, and compile verdict == Signature.py_valid"}
     for i in bad[:6]:
         r = meta_[i]
         run.violation("correspondence", {"label": r["label"], "doc": r["doc"], "meta": r["meta"], "observed_paths": r["paths"][:60],
